@@ -110,9 +110,32 @@ theorem non_normal_rejected (i : PriorInput) (p : Int) (hp : i.polyTrend = some 
     rw [hp] at hp'; cases hp'
     obtain ⟨par', hl', hk'⟩ := hlinAll n hlin
     rw [hl] at hl'; cases hl'
-    rcases hk' with h | h
+    rcases hk' with h | ⟨h, _⟩
     · exact hk.1 h
     · exact hk.2 h
+
+/-- a Normal prior on a linear parameter whose mean / width depends on another random variable of the model is not an
+*independent* Normal: refused (the marginalisation would freeze the parent at one draw) -/
+theorem dependent_normal_rejected (i : PriorInput) (p : Int) (hp : i.polyTrend = some p) (n : Name)
+    (hlin : n ∈ linearNames p i.offsets.length) (par : Param) (hl : lookup (envOf i) n = some par)
+    (hk : par.kind = .normalDep) : ∃ e, validate i = .error e :=
+  non_normal_rejected i p hp n hlin par hl (by rw [hk]; exact ⟨by decide, by decide⟩)
+
+/-- `FixedCompanionMass` is accepted for `K` only (the kernel implements its dependence on `P, e` for `K`) -/
+theorem fcm_only_for_K (i : PriorInput) (p : Int) (hp : i.polyTrend = some p) (n : Name)
+    (hlin : n ∈ linearNames p i.offsets.length) (par : Param) (hl : lookup (envOf i) n = some par)
+    (hk : par.kind = .fcm) (hn : n ≠ .K) : ∃ e, validate i = .error e := by
+  cases hv : validate i with
+  | error e => exact ⟨e, rfl⟩
+  | ok names =>
+    exfalso
+    obtain ⟨_, _, _, p', hp', _, hlinAll⟩ := (accept_iff_wellformed i).mp ⟨names, hv⟩
+    rw [hp] at hp'; cases hp'
+    obtain ⟨par', hl', hk'⟩ := hlinAll n hlin
+    rw [hl] at hl'; cases hl'
+    rcases hk' with h | ⟨_, h⟩
+    · rw [hk] at h; cases h
+    · exact hn h
 
 /-- `JokerPrior.default` never accepts what the core validator would refuse: acceptance means the assembled
 prior is well-formed -/
